@@ -8,7 +8,6 @@ import (
 	"fmt"
 	"math/rand"
 	"os"
-	"os/exec"
 	"path/filepath"
 	"sort"
 	"strings"
@@ -403,22 +402,20 @@ func runStress(cfgPath, outPath string) {
 	if err := json.Unmarshal(b, &cfg); err != nil {
 		lib.Fatal("%v", err)
 	}
-	self, err := os.Executable()
-	if err != nil {
-		lib.Fatal("%v", err)
-	}
 	dir, err := os.MkdirTemp(filepath.Dir(outPath), "race-")
 	if err != nil {
 		lib.Fatal("%v", err)
 	}
 	defer os.RemoveAll(dir)
 	childOut := filepath.Join(dir, "trace.json")
-	cmd := exec.Command(self, "stresschild", cfgPath, childOut)
-	cmd.Env = append(os.Environ(),
-		"GORACE=halt_on_error=0 exitcode=0 log_path="+filepath.Join(dir, "race"),
-		fmt.Sprintf("GOMAXPROCS=%d", cfg.Procs))
-	if out, err := cmd.CombinedOutput(); err != nil {
-		lib.Fatal("stress child failed: %v\n%s", err, out)
+	if c := runChild([]string{
+		"GORACE=halt_on_error=0 exitcode=0 log_path=" + filepath.Join(dir, "race"),
+		fmt.Sprintf("GOMAXPROCS=%d", cfg.Procs)}, "stresschild", cfgPath, childOut); c != nil {
+		// the run died of a runtime fatal error inside the library: the trace is that one event
+		eb, _ := json.Marshal(event{K: "race", Site: "runtime-fatal:" + c.Fatal + "|" + c.Site})
+		ob, _ := json.Marshal(map[string]any{"id": cfg.ID, "cfg": cfg, "events": []json.RawMessage{eb}, "races": 1})
+		os.WriteFile(outPath, append(ob, '\n'), 0o644)
+		return
 	}
 	var tr struct {
 		ID     string            `json:"id"`
